@@ -259,13 +259,31 @@ class C06Check(Check):
         return self.runs[tier]
 
     def gen(self, seed, tier, run_index):
-        return gen_plan(seeds.run_rng(seed, self.prop, tier, run_index), self.prop)
+        rng = seeds.run_rng(seed, self.prop, tier, run_index)
+        if run_index % 4 == 3:       # indirectly: the imputer calls made by the explainers
+            from .plan import gen_explainer_plan, gen_batch_plan
+            if run_index % 8 == 7:
+                return gen_batch_plan(rng, self.prop)
+            return gen_explainer_plan(rng, self.prop, "mixed")
+        return gen_plan(rng, self.prop)
 
     def run(self, plan):
+        if plan.get("kind") == "explainer":
+            from .execute import run_plan
+            from .oracles.explainers import C06InExplainerOracle
+            res = run_plan(plan, lambda world, p: [C06InExplainerOracle(world, p)])
+            res.pop("world", None)
+            return res
         return run_imputer_plan(plan)
+
+    def nontrivial(self, res):
+        return res.get("estimating_steps", 0) > 0
 
     def reductions(self, plan):
         out = []
+        if plan.get("kind") == "explainer":
+            from .checks_explainers import ExplainerCheck
+            return ExplainerCheck.reductions(self, plan)
         cfg = plan["config"]
         if cfg.get("rng") != "perop":
             p = copy.deepcopy(plan)
